@@ -179,3 +179,163 @@ Proof.
   intros Hacc Fe Fa Hlt. unfold is_greater_than_double_m, order_want_greater_double, greater_m, double_is_greater_src.
   cbn [f_sub f_lt E64]. apply minus_tolerance_lt; auto.
 Qed.
+
+(* ---------------------------------------------------------------- the tolerance, exactly *)
+(* What the comparisons accept, stated against the tolerance value T they are handed (the value
+   accuracy() returned): no rounding slack is lost, because rounding to nearest is monotone and T
+   is itself a double.  How far T is from 10^(1 + floor(log10 largest) - figures) is libm's; the
+   correspondence run measures it on every probe. *)
+Lemma rnd64_abs (d : R) : rnd64 (Rabs d) = Rabs (rnd64 d).
+Proof. apply round_NE_abs. apply fexp_correct. reflexivity. Qed.
+
+Lemma rnd64_le (a b : R) : (a <= b)%R -> (rnd64 a <= rnd64 b)%R.
+Proof. intros H. apply round_le; [apply fexp_correct; reflexivity|apply valid_rnd_N|exact H]. Qed.
+
+Lemma rnd64_id (t : F64) : rnd64 (B2R t) = B2R t.
+Proof. apply round_generic; [apply valid_rnd_N|apply generic_format_B2R]. Qed.
+
+(* |x - y| computed in double arithmetic is below the double t  ==>  the real |x - y| is below t *)
+Lemma abs_diff_lt_sound (x y t : F64) : fin x -> fin y -> fin t ->
+  Bltb (Babs (Bminus mode_NE x y)) t = true -> (Rabs (B2R x - B2R y) < B2R t)%R.
+Proof.
+  intros Fx Fy Ft Hlt.
+  pose proof (Bminus_correct 53 1024 _ _ mode_NE x y Fx Fy) as H. cbn [round_mode] in H.
+  destruct (Rlt_bool (Rabs (rnd64 (B2R x - B2R y))) (bpow radix2 1024)).
+  - destruct H as (V & F & _).
+    assert (FA : fin (Babs (Bminus mode_NE x y))) by (rewrite is_finite_Babs; exact F).
+    rewrite (Bltb_correct 53 1024 _ _ FA Ft), B2R_Babs, V in Hlt.
+    destruct (Rlt_bool_spec (Rabs (rnd64 (B2R x - B2R y))) (B2R t)) as [Hr|]; [|discriminate].
+    destruct (Rlt_le_dec (Rabs (B2R x - B2R y)) (B2R t)) as [|Hge]; [assumption|exfalso].
+    apply rnd64_le in Hge. rewrite rnd64_id, rnd64_abs in Hge. lra.
+  - destruct H as (V & _). unfold binary_overflow in V. cbn [overflow_to_inf] in V.
+    destruct (Bminus mode_NE x y) as [s|s| |s m e H']; try discriminate.
+    destruct t as [s'|s'| |s' m' e' H'']; try discriminate; cbn in Hlt; discriminate.
+Qed.
+
+(* the real |x - y| is not above a double u below t  ==>  the computed |x - y| is below t *)
+Lemma abs_diff_lt_complete (x y t u : F64) : fin x -> fin y -> fin t -> fin u ->
+  (B2R u < B2R t)%R -> (Rabs (B2R x - B2R y) <= B2R u)%R ->
+  Bltb (Babs (Bminus mode_NE x y)) t = true.
+Proof.
+  intros Fx Fy Ft Fu Hut Hle.
+  pose proof (Bminus_correct 53 1024 _ _ mode_NE x y Fx Fy) as H. cbn [round_mode] in H.
+  assert (Hr : (Rabs (rnd64 (B2R x - B2R y)) <= B2R u)%R).
+  { rewrite <- rnd64_abs. rewrite <- (rnd64_id u). apply rnd64_le. exact Hle. }
+  assert (Hu : (B2R u < bpow radix2 1024)%R).
+  { apply Rle_lt_trans with (1 := Rle_abs _). apply abs_B2R_lt_emax. }
+  rewrite Rlt_bool_true in H by lra.
+  destruct H as (V & F & _).
+  assert (FA : fin (Babs (Bminus mode_NE x y))) by (rewrite is_finite_Babs; exact F).
+  rewrite (Bltb_correct 53 1024 _ _ FA Ft), B2R_Babs, V. apply Rlt_bool_true. lra.
+Qed.
+
+(* EQUALITY, upper side: whatever is accepted differs, as real numbers, by less than the absolute
+   tolerance or by less than the tolerance value T the comparison was handed *)
+Theorem eq_accepted_within (acc : Z -> F64 -> F64) figs (x y T : F64) :
+  (forall L, acc figs L = T) -> fin x -> fin y -> fin T ->
+  eq_m acc figs x y = true ->
+  (Rabs (B2R x - B2R y) < Rmax (B2R abs_tol) (B2R T))%R.
+Proof.
+  intros HT Fx Fy FT. unfold eq_m, doubles_are_equal_src. cbn [f_abs f_sub f_lt E64]. rewrite HT.
+  destruct abs_tol_positive as (_ & FA).
+  destruct (Bltb (Babs (Bminus mode_NE x y)) abs_tol) eqn:H1.
+  - intros _. apply Rlt_le_trans with (2 := Rmax_l _ _). apply abs_diff_lt_sound; assumption.
+  - intros H2. apply Rlt_le_trans with (2 := Rmax_r _ _). apply abs_diff_lt_sound; assumption.
+Qed.
+
+(* EQUALITY, lower side: a real difference not above some double below the tolerance value T (its
+   predecessor, for instance) is accepted *)
+Theorem eq_within_accepted (acc : Z -> F64 -> F64) figs (x y T u : F64) :
+  (forall L, acc figs L = T) -> fin x -> fin y -> fin T -> fin u ->
+  (B2R u < B2R T)%R -> (Rabs (B2R x - B2R y) <= B2R u)%R ->
+  eq_m acc figs x y = true.
+Proof.
+  intros HT Fx Fy FT Fu Hu Hle. unfold eq_m, doubles_are_equal_src. cbn [f_abs f_sub f_lt E64]. rewrite HT.
+  rewrite (abs_diff_lt_complete x y T u Fx Fy FT Fu Hu Hle). destruct (Bltb _ abs_tol); reflexivity.
+Qed.
+
+(* the documented bound follows for every libm whose tolerance value is within a factor (1 + eps)
+   of max(|x|,|y|) * 10^(1 - figures): that hypothesis is what the probes measure *)
+Corollary eq_accepted_documented_bound (acc : Z -> F64 -> F64) figs (x y T : F64) (eps : R) :
+  (forall L, acc figs L = T) -> fin x -> fin y -> fin T ->
+  (B2R T <= Rmax (Rabs (B2R x)) (Rabs (B2R y)) * Rpower 10 (1 - IZR figs) * (1 + eps))%R ->
+  eq_m acc figs x y = true ->
+  (Rabs (B2R x - B2R y) < Rmax (B2R abs_tol) (Rmax (Rabs (B2R x)) (Rabs (B2R y)) * Rpower 10 (1 - IZR figs) * (1 + eps)))%R.
+Proof.
+  intros HT Fx Fy FT Hlib Heq. pose proof (eq_accepted_within acc figs x y T HT Fx Fy FT Heq) as H.
+  apply Rlt_le_trans with (1 := H). apply Rmax_case; [apply Rmax_l|].
+  apply Rle_trans with (1 := Hlib). apply Rmax_r.
+Qed.
+
+(* ORDER: x < rnd(y + t) can only hold when x < y + t as real numbers *)
+Lemma lt_plus_sound (x y t : F64) : fin x -> fin y -> fin t ->
+  Bltb x (Bplus mode_NE y t) = true -> (B2R x < B2R y + B2R t)%R.
+Proof.
+  intros Fx Fy Ft Hlt.
+  pose proof (Bplus_correct 53 1024 _ _ mode_NE y t Fy Ft) as H. cbn [round_mode] in H.
+  destruct (Rlt_bool_spec (Rabs (rnd64 (B2R y + B2R t))) (bpow radix2 1024)) as [Hov|Hov].
+  - destruct H as (V & F & _). rewrite (Bltb_correct 53 1024 _ _ Fx F), V in Hlt.
+    destruct (Rlt_bool_spec (B2R x) (rnd64 (B2R y + B2R t))) as [Hr|]; [|discriminate].
+    destruct (Rlt_le_dec (B2R x) (B2R y + B2R t)) as [|Hge]; [assumption|exfalso].
+    apply rnd64_le in Hge. rewrite rnd64_id in Hge. lra.
+  - (* the sum overflows: the result is the infinity with the common sign of y and t *)
+    destruct H as (V & Es). unfold binary_overflow in V. cbn [overflow_to_inf] in V.
+    destruct (Bplus mode_NE y t) as [s|s| |s m e H']; try discriminate. injection V as Hs.
+    destruct (Bsign y) eqn:Sy; subst s.
+    + destruct x as [sx|sx| |sx mx ex Hx]; try discriminate; cbn in Hlt; try destruct sx; discriminate.
+    + assert (Hy : (0 <= B2R y)%R) by (apply tol_nonneg_R; assumption).
+      assert (Ht : (0 <= B2R t)%R) by (apply tol_nonneg_R; [assumption|congruence]).
+      assert (Hx : (B2R x < bpow radix2 1024)%R) by (apply Rle_lt_trans with (1 := Rle_abs _); apply abs_B2R_lt_emax).
+      destruct (Rlt_le_dec (B2R x) (B2R y + B2R t)) as [|Hge]; [assumption|exfalso].
+      assert (Hr : (rnd64 (B2R y + B2R t) <= B2R x)%R) by (rewrite <- (rnd64_id x); apply rnd64_le; exact Hge).
+      assert (Hp : (0 <= rnd64 (B2R y + B2R t))%R).
+      { rewrite <- (round_0 radix2 fexp64 ZnearestE). apply rnd64_le. lra. }
+      rewrite Rabs_pos_eq in Hov by exact Hp. lra.
+Qed.
+
+(* rnd(x - t) < y can only hold when x - t < y as real numbers *)
+Lemma minus_lt_sound (x y t : F64) : fin x -> fin y -> fin t ->
+  Bltb (Bminus mode_NE x t) y = true -> (B2R x - B2R t < B2R y)%R.
+Proof.
+  intros Fx Fy Ft Hlt.
+  pose proof (Bminus_correct 53 1024 _ _ mode_NE x t Fx Ft) as H. cbn [round_mode] in H.
+  destruct (Rlt_bool_spec (Rabs (rnd64 (B2R x - B2R t))) (bpow radix2 1024)) as [Hov|Hov].
+  - destruct H as (V & F & _). rewrite (Bltb_correct 53 1024 _ _ F Fy), V in Hlt.
+    destruct (Rlt_bool_spec (rnd64 (B2R x - B2R t)) (B2R y)) as [Hr|]; [|discriminate].
+    destruct (Rlt_le_dec (B2R x - B2R t) (B2R y)) as [|Hge]; [assumption|exfalso].
+    apply rnd64_le in Hge. rewrite rnd64_id in Hge. lra.
+  - destruct H as (V & Es). unfold binary_overflow in V. cbn [overflow_to_inf] in V.
+    destruct (Bminus mode_NE x t) as [s|s| |s m e H']; try discriminate. injection V as Hs.
+    destruct (Bsign x) eqn:Sx; subst s.
+    + (* -infinity: x < 0 and t > 0 (its sign is the opposite of x's) *)
+      assert (Hxn : (B2R x <= 0)%R).
+      { destruct x as [sx|sx| |sx mx ex Hx]; try discriminate; [simpl; lra|]. simpl in Sx. subst sx. apply F2R_le_0. simpl. lia. }
+      assert (Htp : (0 <= B2R t)%R) by (apply tol_nonneg_R; [assumption|destruct (Bsign t); [discriminate|reflexivity]]).
+      assert (Hy : (- bpow radix2 1024 < B2R y)%R).
+      { pose proof (abs_B2R_lt_emax 53 1024 y) as Hb. unfold Rabs in Hb. destruct (Rcase_abs (B2R y)); lra. }
+      destruct (Rlt_le_dec (B2R x - B2R t) (B2R y)) as [|Hge]; [assumption|exfalso].
+      assert (Hr : (B2R y <= rnd64 (B2R x - B2R t))%R) by (rewrite <- (rnd64_id y); apply rnd64_le; exact Hge).
+      assert (Hn : (rnd64 (B2R x - B2R t) <= 0)%R).
+      { rewrite <- (round_0 radix2 fexp64 ZnearestE). apply rnd64_le. lra. }
+      rewrite Rabs_left1 in Hov by exact Hn. lra.
+    + destruct y as [sy|sy| |sy my ey Hy]; try discriminate; cbn in Hlt; try destruct sy; discriminate.
+Qed.
+
+(* ORDERING, upper side: is_less_than_double(e) accepts a only if a is below e + T, and
+   is_greater_than_double(e) accepts a only if a is above e - T, as real numbers - nothing out of
+   order by the tolerance value or more is accepted *)
+Theorem lesser_accepted_within (acc : Z -> F64 -> F64) figs (e a T : F64) :
+  (forall L, acc figs L = T) -> fin e -> fin a -> fin T ->
+  is_less_than_double_m acc figs e a = true -> (B2R a < B2R e + B2R T)%R.
+Proof.
+  intros HT Fe Fa FT. unfold is_less_than_double_m, order_want_lesser_double, lesser_m, double_is_lesser_src.
+  cbn [f_add f_lt E64]. rewrite HT. apply lt_plus_sound; assumption.
+Qed.
+
+Theorem greater_accepted_within (acc : Z -> F64 -> F64) figs (e a T : F64) :
+  (forall L, acc figs L = T) -> fin e -> fin a -> fin T ->
+  is_greater_than_double_m acc figs e a = true -> (B2R e - B2R T < B2R a)%R.
+Proof.
+  intros HT Fe Fa FT. unfold is_greater_than_double_m, order_want_greater_double, greater_m, double_is_greater_src.
+  cbn [f_sub f_lt E64]. rewrite HT. apply minus_lt_sound; assumption.
+Qed.
